@@ -119,16 +119,43 @@ package keeper
 
 // ---- C14: block reward for signing members ------------------------------------------------------------
 // Only members of the current group that are active AND have a queued nonce (Tail > Head) are paid, each the
-// same amount, from the distribution module account; everything else moves only through bank/distribution
-// keeper calls (which conserve coins by their assumed contracts).
+// same amount, from the distribution module account. CONSERVATION: on success, what left the distribution
+// account towards members plus what went to the community pool is, denom by denom, exactly what this call moved
+// into the distribution account - and the final subtraction never goes negative (the begin-blocker cannot panic
+// on rounding). The coin theory below (amounts per denom; decimal amounts as integers scaled by 10^18) is assumed
+// of the cosmos-sdk Coins/DecCoins operations; the same axioms are used by the oracle module's allocation.
+//@ axiom coinNonNeg: forall c sdk.Coins, d Str :: { ext("Coins.AmountOf", c, d) } ext("Coins.AmountOf", c, d) >= 0
+//@ axiom decNonNeg: forall c sdk.DecCoins, d Str :: { ext("DecCoins.AmountOf", c, d) } ext("DecCoins.AmountOf", c, d) >= 0
+//@ axiom decFromCoins: forall c sdk.Coins, d Str :: { ext("DecCoins.AmountOf", ext("NewDecCoinsFromCoins", c), d) } ext("DecCoins.AmountOf", ext("NewDecCoinsFromCoins", c), d) == ext("Coins.AmountOf", c, d) * 1000000000000000000
+//@ axiom decMulTrunc: forall c sdk.DecCoins, r Int, d Str :: { ext("DecCoins.AmountOf", ext("DecCoins.MulDecTruncate", c, r), d) } r >= 0 ==> ext("DecCoins.AmountOf", ext("DecCoins.MulDecTruncate", c, r), d) == (ext("DecCoins.AmountOf", c, d) * r) / 1000000000000000000
+//@ axiom decTrunc: forall c sdk.DecCoins, d Str :: { ext("Coins.AmountOf", ext("DecCoins.TruncateDecimal", c), d) } ext("Coins.AmountOf", ext("DecCoins.TruncateDecimal", c), d) == ext("DecCoins.AmountOf", c, d) / 1000000000000000000
+//@ axiom coinsMulInt: forall c sdk.Coins, n Int, d Str :: { ext("Coins.AmountOf", ext("Coins.MulInt", c, n), d) } n >= 0 ==> ext("Coins.AmountOf", ext("Coins.MulInt", c, n), d) == ext("Coins.AmountOf", c, d) * n
+// Coins.Sub panics when any denom would go negative
+//@ extern (coins github.com/cosmos/cosmos-sdk/types.Coins) Sub(coinsB) (result)
+//@ requires forall e Str :: ext("Coins.AmountOf", coins, e) >= ext("Coins.AmountOf", coinsB, e)
+//@ ensures result == ext("Coins.Sub", coins, coinsB)
+//@ ensures forall d Str :: { ext("Coins.AmountOf", result, d) } ext("Coins.AmountOf", result, d) == ext("Coins.AmountOf", coins, d) - ext("Coins.AmountOf", coinsB, d)
+
 //@ spec eligible(o OtherState, m tsstypes.Member) Bool = m.IsActive && types.tssDEQ(o, bech32addr(m.Address)).Tail > types.tssDEQ(o, bech32addr(m.Address)).Head
 //@ func (k Keeper) AllocateTokens
 //@ may_panic
-//@ modifies Bank, Other
+//@ modifies Bank, Other, DistrReceived, DistrAllocated
+//@ ensures err == nil ==> (forall d Str :: DistrAllocated[d] - old(DistrAllocated)[d] == DistrReceived[d] - old(DistrReceived)[d])
+//@ assert after tssRewardInt: tssRewardInt == ext("DecCoins.TruncateDecimal", ext("DecCoins.MulDecTruncate", totalFee, wrap64(bParams(Store_bandtss).RewardPercentage) * 10000000000000000))
+//@ assert after rewardMultiplier: rewardMultiplier == 1000000000000000000 - communityTax && 0 <= rewardMultiplier && rewardMultiplier <= 1000000000000000000
+//@ assert after powerFraction: len(validMembers) >= 1 && powerFraction == (1000000000000000000 * 1000000000000000000) / (len(validMembers) * 1000000000000000000) && powerFraction >= 0 && powerFraction * len(validMembers) <= 1000000000000000000
+//@ assert after reward: reward == ext("DecCoins.MulDecTruncate", ext("DecCoins.MulDecTruncate", tssReward, rewardMultiplier), powerFraction)
+//@ assert after reward: forall d Str :: { ext("DecCoins.AmountOf", reward, d) } ext("DecCoins.AmountOf", ext("DecCoins.MulDecTruncate", tssReward, rewardMultiplier), d) <= ext("DecCoins.AmountOf", tssReward, d)
+//@ assert after reward: forall d Str :: { ext("DecCoins.AmountOf", reward, d) } ext("DecCoins.AmountOf", reward, d) * 1000000000000000000 <= ext("DecCoins.AmountOf", ext("DecCoins.MulDecTruncate", tssReward, rewardMultiplier), d) * powerFraction
+//@ assert after reward: forall d Str :: { ext("DecCoins.AmountOf", reward, d) } ext("DecCoins.AmountOf", reward, d) * len(validMembers) <= ext("DecCoins.AmountOf", tssReward, d)
+//@ assert after rewardInt: rewardInt == ext("DecCoins.TruncateDecimal", reward)
+//@ assert after rewardInt: forall d Str :: { ext("Coins.AmountOf", rewardInt, d) } ext("Coins.AmountOf", rewardInt, d) * len(validMembers) <= ext("Coins.AmountOf", tssRewardInt, d)
 //@ loop 0: invariant forall j :: 0 <= j && j < len(validMembers) ==> (exists i :: 0 <= i && i < #i && validMembers[j] == bech32addr(members[i].Address) && eligible(Other, members[i]))
 //@ loop 0: invariant forall i :: 0 <= i && i < #i && eligible(Other, members[i]) ==> (exists j :: 0 <= j && j < len(validMembers) && validMembers[j] == bech32addr(members[i].Address))
 //@ loop 0: invariant len(validMembers) <= #i
-//@ loop 1: invariant true
+//@ loop 0: invariant DistrReceived == old(DistrReceived) && DistrAllocated == old(DistrAllocated)
+//@ loop 1: invariant forall d Str :: DistrAllocated[d] == old(DistrAllocated)[d] + #i * ext("Coins.AmountOf", rewardInt, d) * 1000000000000000000
+//@ loop 1: invariant forall d Str :: DistrReceived[d] == old(DistrReceived)[d] + ext("Coins.AmountOf", tssRewardInt, d) * 1000000000000000000
 
 // ---- C11: users cannot obtain signatures over module-internal content kinds ----------------------------------
 //@ func (k Keeper) CreateDirectSigningRequest
